@@ -565,6 +565,23 @@ harnesses! {
         assert!(bx_is(&(-&Wrapping(x2.clone())).0, 2, a.wrapping_neg()));
         assert!(bx_is(&(-Wrapping(x2)).0, 2, a.wrapping_neg()));
     }
+    /// three limbs (a carry that ripples through an all-ones middle limb needs >= 3 limbs): -x == !x + 1 limb-wise, x + (-x) == 0 mod 2^192
+    #[kani::unwind(5)]
+    fn c04_boxed_neg_3(s) {
+        let w: [u64; 3] = s.words();
+        let x = BoxedUint::from_words(w);
+        let n = x.wrapping_neg();
+        assert!(n.nlimbs() == 3);
+        let nw = n.as_words();
+        // reference: two's complement over 192 bits
+        let (l0, c0) = (!w[0]).overflowing_add(1);
+        let (l1, c1) = (!w[1]).overflowing_add(c0 as u64);
+        let l2 = (!w[2]).wrapping_add(c1 as u64);
+        assert!(nw[0] == l0 && nw[1] == l1 && nw[2] == l2);
+        let t = WrappingNeg::wrapping_neg(&x);
+        let tw = t.as_words();
+        assert!(t.nlimbs() == 3 && tw[0] == l0 && tw[1] == l1 && tw[2] == l2);
+    }
     /// `BoxedUint + BoxedUint` / `-` (4 value/reference combinations): exact, precision = widest operand
     fn c04_boxed_ops_ok_11(s) { boxed_ops_ok(s, 1, 1); }
     fn c04_boxed_ops_ok_12(s) { boxed_ops_ok(s, 1, 2); }
